@@ -25,6 +25,7 @@ import (
 	"crypto/rand"
 	"crypto/x509"
 	"crypto/x509/pkix"
+	"encoding/base64"
 	"encoding/hex"
 	"encoding/json"
 	"errors"
@@ -48,6 +49,7 @@ import (
 	"github.com/smallstep/certificates/authority/provisioner"
 	"github.com/smallstep/certificates/db"
 	"verif/harness/cmd/c02/ss"
+	"verif/harness/cmd/c12/acmeenv"
 	c "verif/harness/common"
 	"verif/harness/fixture"
 )
@@ -103,11 +105,31 @@ type Reload struct {
 	GOR    bool // generate-on-revoke on B, with one revocation after the reload
 }
 
+// Downtime: the CA is down for longer than its cache duration. Authority A (cache duration 1 s; its renew
+// period is the cache duration, so its ticker may or may not tick while A lives — every stored list is seen
+// at StoreCRL) runs Gens forced generations and is shut down; the harness waits until the last stored list's
+// NextUpdate has passed; authority B (cache 1 h) starts on the same file. Its start-up list must carry the last
+// stored number + 1, and a further generation + 2: numbering continues whatever the age of the stored list.
+type Downtime struct {
+	Gens int
+	GOR  bool
+}
+
+// ACME: a certificate issued through the real ACME flow (harness/cmd/c12/acmeenv) is revoked through the real
+// ACME revoke-cert handler (Key: signed by the certificate key instead of the account key); the stored record
+// must carry the certificate's NotAfter, and the list generated afterwards must list the serial with the
+// record's revocation time.
+type ACME struct {
+	Key bool
+}
+
 type Case struct {
-	Reload *Reload `json:",omitempty"`
-	Hist   *Hist   `json:",omitempty"`
-	Race   *Race   `json:",omitempty"`
-	Sched  *Sched  `json:",omitempty"`
+	Downtime *Downtime `json:",omitempty"`
+	ACME     *ACME     `json:",omitempty"`
+	Reload   *Reload   `json:",omitempty"`
+	Hist     *Hist     `json:",omitempty"`
+	Race     *Race     `json:",omitempty"`
+	Sched    *Sched    `json:",omitempty"`
 }
 
 func caseField(k *Case) string {
@@ -812,6 +834,171 @@ func runReload(rl *Reload) (string, string, string) {
 	return in, "ok", "ok"
 }
 
+func runDowntime(dt *Downtime) (string, string, string) {
+	type st struct {
+		num int64
+		at  time.Time
+	}
+	var mu sync.Mutex
+	var stored []st
+	hooks := &ss.Hooks{After: func(op, key string, ok bool, err error) error {
+		if op == "storecrl" && err == nil {
+			n, _ := ss.CRLKey(key)
+			mu.Lock()
+			stored = append(stored, st{n, time.Now()})
+			mu.Unlock()
+		}
+		return nil
+	}}
+	in := fmt.Sprintf("downtime gens=%d gor=%s", dt.Gens, c.B(dt.GOR))
+	sec := &provisioner.Duration{Duration: time.Second}
+	a := must(fixture.New(fixture.Opts{CRL: &config.CRLConfig{Enabled: true, GenerateOnRevoke: dt.GOR, CacheDuration: sec, RenewPeriod: sec}, WrapDB: ss.Wrap(hooks)}))
+	var problems []string
+	ea := &env{ca: a}
+	var serials []string
+	for i := 0; i < dt.Gens; i++ {
+		if dt.GOR {
+			crt := ea.issue()
+			serials = append(serials, crt.SerialNumber.String())
+			if ea.revokeToken(crt.SerialNumber.String()) != 200 {
+				problems = append(problems, "revocation-refused")
+			}
+		} else if err := a.Auth.GenerateCertificateRevocationList(); err != nil {
+			problems = append(problems, "generation-failed")
+		}
+	}
+	if err := a.Auth.Shutdown(); err != nil {
+		problems = append(problems, "shutdown-failed")
+	}
+	// the downtime: the stored list expires (NextUpdate = its generation second + 1 s)
+	lastStored := func() st {
+		mu.Lock()
+		defer mu.Unlock()
+		return stored[len(stored)-1]
+	}
+	last := lastStored()
+	for {
+		time.Sleep(time.Until(last.at.Truncate(time.Second).Add(2100 * time.Millisecond)))
+		if l := lastStored(); l.at.Equal(last.at) {
+			break
+		} else {
+			last = l
+		}
+	}
+	hour := &provisioner.Duration{Duration: time.Hour}
+	b, err := fixture.New(fixture.Opts{CRL: &config.CRLConfig{Enabled: true, GenerateOnRevoke: dt.GOR, CacheDuration: hour, RenewPeriod: hour},
+		WrapDB: ss.Wrap(hooks), DBDir: a.DBDir, From: a})
+	defer os.RemoveAll(a.DBDir)
+	if err != nil {
+		return in, "VIOLATION restart-failed", "ok"
+	}
+	eb := &env{ca: b}
+	l1 := eb.fetch()
+	if err := b.Auth.GenerateCertificateRevocationList(); err != nil {
+		problems = append(problems, "generation-failed")
+	}
+	l2 := eb.fetch()
+	if l1.bad != "" || l2.bad != "" {
+		problems = append(problems, "served-list-"+l1.bad+l2.bad)
+	}
+	// numbers_consecutive on everything that was stored, before and after the downtime, whoever stored it
+	mu.Lock()
+	for i := 1; i < len(stored); i++ {
+		if stored[i].num != stored[i-1].num+1 {
+			problems = append(problems, fmt.Sprintf("stored-numbers-not-consecutive-%d-after-%d", stored[i].num, stored[i-1].num))
+			break
+		}
+	}
+	if n := len(stored); l2.bad == "" && (l2.num != stored[n-1].num || l1.num != l2.num-1) {
+		problems = append(problems, "served-list-is-not-the-newest")
+	}
+	mu.Unlock()
+	if dt.GOR && len(l2.entries) != len(serials) {
+		problems = append(problems, "list-after-downtime-incomplete")
+	}
+	b.Auth.Shutdown()
+	if len(problems) > 0 {
+		return in, "VIOLATION " + strings.Join(problems, ","), "ok"
+	}
+	return in, "ok", "ok"
+}
+
+func runACME(ac *ACME) (string, string, string) {
+	in := fmt.Sprintf("acme key=%s", c.B(ac.Key))
+	e, err := acmeenv.New([]acmeenv.ProvSpec{{Name: "acme"}}, nil)
+	if err != nil {
+		panic(err)
+	}
+	defer e.Close()
+	// the environment's authority has no CRL section; switch publication on (no ticker: generations are forced)
+	hour := &provisioner.Duration{Duration: time.Hour}
+	e.Auth.GetConfig().CRL = &config.CRLConfig{Enabled: true, GenerateOnRevoke: true, CacheDuration: hour, RenewPeriod: hour}
+	acct, err := e.NewAccount("acme", acmeenv.NewKey("es256", 1))
+	if err != nil {
+		panic(err)
+	}
+	is, err := e.Issue(acct, "h"+must(randutil.Hex(8))+".example.com")
+	if err != nil {
+		panic(err)
+	}
+	serial := is.Cert.SerialNumber.String()
+	pl, _ := json.Marshal(map[string]any{"certificate": base64.RawURLEncoding.EncodeToString(is.Cert.Raw), "reason": 1})
+	path := acmeenv.Path("acme", "revoke-cert")
+	var code int
+	if ac.Key {
+		s := &acmeenv.Shape{Ser: "flat", Protected: map[string]any{"alg": is.CertKey.DefaultAlg(), "nonce": e.Nonce("acme"),
+			"url": acmeenv.URL(path), "jwk": acmeenv.JWKMap(is.CertKey.JWK())}, Payload: pl, NSigs: 1, SignKey: is.CertKey}
+		b, _ := s.Build()
+		code = e.Do("POST", path, b).Code
+	} else {
+		code = e.Post(acct, path, pl).Code
+	}
+	if code != 200 {
+		return in, fmt.Sprintf("revocation-refused status=%d", code), "ok"
+	}
+	var problems []string
+	var rec *db.RevokedCertificateInfo
+	for _, en := range ss.Dump(e.Auth.GetDatabase(), "revoked_x509_certs") {
+		if en.Key == serial {
+			var r db.RevokedCertificateInfo
+			if json.Unmarshal(en.Value, &r) == nil {
+				rec = &r
+			}
+		}
+	}
+	switch {
+	case rec == nil:
+		problems = append(problems, "acknowledged-revocation-not-stored")
+	case rec.ExpiresAt.Unix() != is.Cert.NotAfter.Unix():
+		exp := "-"
+		if !rec.ExpiresAt.IsZero() {
+			exp = strconv.FormatInt(rec.ExpiresAt.Unix(), 10)
+		}
+		problems = append(problems, fmt.Sprintf("record-expiry-%s-differs-from-certificate-%d", exp, is.Cert.NotAfter.Unix()))
+	}
+	// generate-on-revoke: the served list contains the serial with the record's revocation time
+	info, err := e.Auth.GetCertificateRevocationList()
+	if err != nil {
+		problems = append(problems, "no-list-served")
+	} else if rl, err := x509.ParseRevocationList(info.Data); err != nil {
+		problems = append(problems, "served-list-BADDER")
+	} else {
+		found := false
+		for _, en := range rl.RevokedCertificateEntries {
+			if en.SerialNumber.String() == serial && rec != nil && en.RevocationTime.Unix() == rec.RevokedAt.Unix() {
+				found = true
+			}
+		}
+		if !found {
+			problems = append(problems, "acknowledged-revocation-missing-from-served-list")
+		}
+	}
+	if len(problems) > 0 {
+		return in, "VIOLATION " + strings.Join(problems, ","), "ok"
+	}
+	return in, "ok", "ok"
+}
+
 func cornerHists() []*Hist {
 	all := []CertSpec{{"issued", 0}, {"unknown", 0}, {"carried", -7200}, {"carried", -3601}, {"carried", -3600}, {"carried", -3599}, {"carried", -1800}, {"carried", 3600},
 		{"stored", -90000}, {"stored", -3601}, {"stored", -3599}, {"stored", 1800}}
@@ -889,6 +1076,10 @@ func runCase(o *c.Out, k *Case) {
 			in, impl, want = runSched(k.Sched)
 		case k.Reload != nil:
 			in, impl, want = runReload(k.Reload)
+		case k.Downtime != nil:
+			in, impl, want = runDowntime(k.Downtime)
+		case k.ACME != nil:
+			in, impl, want = runACME(k.ACME)
 		}
 	}()
 	if in == "" {
@@ -905,7 +1096,7 @@ func main() {
 	n := flag.Int("n", 100, "number of generated cases")
 	out := flag.String("out", "", "output file")
 	replay := flag.String("replay", "", "file of lines with a case=x<hex json> field to re-run")
-	stage := flag.String("stage", "hist", "hist | sched | reload | race")
+	stage := flag.String("stage", "hist", "hist | sched | reload | downtime | acme | race")
 	flag.Parse()
 	o, err := c.NewOut(*out)
 	if err != nil {
@@ -952,6 +1143,15 @@ func main() {
 		for i := 0; i < *n; i++ {
 			rr := r.Fork()
 			runCase(o, &Case{Race: &Race{GOR: !rr.Chance(1, 3), Revokers: 1 + rr.Intn(8), Gens: rr.Intn(4), Fetchers: rr.Intn(3)}})
+		}
+	case "downtime":
+		log.SetOutput(io.Discard)
+		for i := 0; i < *n; i++ {
+			runCase(o, &Case{Downtime: &Downtime{Gens: r.Fork().Intn(4), GOR: i%2 == 1}})
+		}
+	case "acme":
+		for i := 0; i < *n; i++ {
+			runCase(o, &Case{ACME: &ACME{Key: i%2 == 1}})
 		}
 	case "reload":
 		log.SetOutput(io.Discard) // the generator goroutines log every tick
